@@ -189,6 +189,19 @@ M=[
 ("C19","bot_scans_varint_for_name","bot/login.go",'''				(*pk.UUID)(&c.UUID),
 				(*pk.String)(&c.Name),''','''				(*pk.UUID)(&c.UUID),
 				(*pk.VarInt)(&c.Conn.Socket.(interface{ X() *int32 }).X()),'''),
+("C19","acceptconfig_error_dropped","server/server.go",'''		err = s.AcceptConfig(conn)
+		if err != nil {''','''		_ = s.AcceptConfig(conn)
+		if err != nil {'''),
+("C19","login_disconnect_then_continue","server/server.go",'''			if s.Logger != nil {
+				s.Logger.Printf("client %v login error: %v", conn.Socket.RemoteAddr(), err)
+			}
+			return
+		}
+		err = s.AcceptConfig(conn)''','''			if s.Logger != nil {
+				s.Logger.Printf("client %v login error: %v", conn.Socket.RemoteAddr(), err)
+			}
+		}
+		err = s.AcceptConfig(conn)'''),
 ("C19","ascending_priority","bot/event.go",'''		return slice[i].Priority > slice[j].Priority''','''		return slice[i].Priority < slice[j].Priority'''),
 ("C20","close_signal","net/queue/queue.go",'''	p.closed = true
 	p.cond.Broadcast()''','''	p.closed = true
